@@ -34,7 +34,7 @@ var ctxTouchers = map[string]string{
 
 func init() {
 	register(&Rule{
-		Name: "request-ctx-handoff", Props: []string{"C19"}, Engine: "SSA", Floor: 9,
+		Name: "request-ctx-handoff", Props: []string{"C19", "C17"}, Engine: "SSA", Floor: 9,
 		Doc: "the RequestCtx of a server stream belongs to the handler from the go statement in dispatchHandler until the handlerDone receipt: the functions that look inside Stream.ctx are exactly a frozen table, and each one's reason is checked (guarded by handlerRunning, reached only on the handlerDone receipt, before the go statement, behind the half-closed state test, or behind Stream.bodyStream which only finishRequest sets)",
 		Run: func(p *Prog, r *Out) {
 			touch := map[string]string{} // fn -> pos of first deref
